@@ -94,9 +94,21 @@ func alignHistories(r *core.Run, matrices []string, judge func(c alnCase, res al
 		func(h alnHist) core.Outcome {
 			m := matrixByName(h.Matrix)
 			out := core.Outcome{Class: fmt.Sprint("calls=", len(h.Calls)), Nontrivial: len(h.Calls) >= 2, Evals: len(h.Calls)}
+			var kept []alnResult
+			var snap [][]byte
+			defer func() {
+				_ = kept
+			}()
 			for i, cl := range h.Calls {
 				c := alnCase{cl.Fn, core.S(expandSeq(cl.A)), core.S(expandSeq(cl.B)), h.Matrix}
-				res, changed := runAlign(c, m)
+				res, changed := runAlignRaw(c, m)
+				kept = append(kept, res)
+				snap = append(snap, append([]byte(nil), res.steps...))
+				for k := 0; k < i; k++ {
+					if string(kept[k].steps) != string(snap[k]) {
+						return core.Failf("the steps returned by call %d of the history %v were overwritten by call %d", k+1, h.Calls, i+1)
+					}
+				}
 				o := judge(c, res, changed)
 				if o.Fail != "" {
 					if o.Known != "" {
